@@ -83,16 +83,10 @@ class P(FlowFidelity):
             wires += w; vals.append(v); lens.append(len(w))
         return g.enc_set(t.tid, wires), ("data", t.tid, vals, lens, 0)
 
-    def big_tpl(self, g, rng, tid):
-        # records longer than 4 octets, no elements missing from the model
-        while True:
-            t, o = g.rand_tpl(tid=tid, opts=rng.random() < 0.25)
-            if g.min_rec_len(t) > 4:
-                return t, o
-
     def gen_history(self, g, rng, exporters, tids):
         orc = Oracle(self.proto, g.model)
         known = {}           # (addr, tid) -> Tpl as last announced (what the exporter itself thinks)
+        kinds = {}           # (addr, tid) -> whether that was an options template
         toks, exp = [], []
         nmsg = rng.choice([3, 4, 6, 8])
         for _ in range(nmsg):
@@ -103,7 +97,12 @@ class P(FlowFidelity):
                 k = rng.random()
                 if k < 0.45 or (a, tid) not in known and k < 0.6:
                     t, o = self.big_tpl(g, rng, tid)      # announcement or re-announcement with a different definition
-                    known[(a, tid)] = t
+                    if (a, tid) in known and rng.random() < 0.5:
+                        # ... differing from what this exporter announced before in ONE respect only
+                        t2, o2 = g.mutate_tpl(known[(a, tid)], kinds.get((a, tid), False))
+                        if g.min_rec_len(t2) > 4:
+                            t, o = t2, o2
+                    known[(a, tid)] = t; kinds[(a, tid)] = o
                     sets.append(g.enc_set(g.tpl_set_id(o), g.enc_tpl(t, o)))
                     abstract.append(("tpl", [(t, o)]))
                 else:
@@ -150,7 +149,7 @@ class P(FlowFidelity):
             self.proto = proto
             self.cmd = "ipfixh" if proto == "ipfix" else "nf9h"
             g = Gen(proto, go_model(), rng)
-            out += [self.gen_case(g, rng) for _ in range(budget // 2)]
+            out += [self.gen_sandwich(g, rng) if i % 8 == 7 else self.gen_case(g, rng) for i in range(budget // 2)]
         return out
 
     def judge(self, line, impl, model):
